@@ -663,6 +663,7 @@ func execPlan(t *testing.T, p *Plan, res *verifsim.Result, oracle func(*runInfo)
 		}
 		start := time.Now()
 		w := newWorld(p, res, start)
+		context.VerifCancelSeed = p.Cancel
 		system.VerifRtnl = w.rtnl
 		system.VerifLoopbacks = w.loopbacks
 		defer func() { system.VerifRtnl, system.VerifLoopbacks = nil, nil }()
